@@ -805,6 +805,39 @@ def rt_shapes_grid(first_only=False, count=None, only=None):
                         return fails
                 except Exception:  # noqa: BLE001
                     pass
+    # Chain: three children (the LAST one incompatible), and declared cond_shape with conditional children in any position
+    if not only or only == "Chain":
+        for s0, s2 in (((2,), (3,)), ((2, 3), (2, 4)), ((2,), (2, 1)), ((), (1,))):
+            n += 1
+            try:
+                B.Chain([_ident(s0), _ident(s0), _ident(s2)])
+                fails.append(dict(what=f"Chain of children with shapes {s0}, {s0}, {s2} was accepted", case=dict(cls="Chain", shapes=[list(s0), list(s0), list(s2)])))
+            except Exception:  # noqa: BLE001
+                pass
+        for pattern in ((None, (3,)), ((3,), None), (None, (3,), None), ((), None), (None, ()), ((2, 2), (2, 2))):
+            n += 1
+            kids = [_ident((2,), cs_) for cs_ in pattern]
+            try:
+                ch = B.Chain(kids)
+            except Exception as ex:  # noqa: BLE001
+                fails.append(dict(what=f"Chain of children with cond_shapes {pattern} raised {type(ex).__name__}", case=dict(cls="Chain", cond_shapes=str(pattern))))
+                continue
+            want = next(c_ for c_ in pattern if c_ is not None)
+            if ch.cond_shape is None or tuple(ch.cond_shape) != tuple(want):
+                fails.append(dict(what=f"Chain of children with cond_shapes {pattern} declares cond_shape {ch.cond_shape}, expected {want}", case=dict(cls="Chain", cond_shapes=str(pattern))))
+            else:
+                r = _accepts(ch)
+                if r:
+                    fails.append(dict(what=f"Chain with cond_shapes {pattern}: {r}", case=dict(cls="Chain", cond_shapes=str(pattern))))
+        for mism in (((3,), (2,)), ((), (1,))):
+            n += 1
+            try:
+                B.Chain([_ident((2,), mism[0]), _ident((2,), mism[1])])
+                fails.append(dict(what=f"Chain of children with different cond_shapes {mism} was accepted", case=dict(cls="Chain", cond_shapes=str(mism))))
+            except Exception:  # noqa: BLE001
+                pass
+        if first_only and fails:
+            return fails
     for cls, kw in cases:
         if only and cls != only:
             continue
